@@ -15,7 +15,7 @@ OutInfo(run, j) == IF run.k = "ok" /\ j \in DOMAIN run.outs
                    THEN [kind |-> run.outs[j].kind, cls |-> run.outs[j].cls, dims |-> run.outs[j].dims, lg |-> run.outs[j].lg, dk |-> run.outs[j].dk]
                    ELSE [kind |-> run.k, cls |-> run.exc, dims |-> <<0, 0>>, lg |-> 0, dk |-> ""]
 PFail(n, c, o, cl, j) ==
-  PrintT(ToJson([tag |-> "P-FAIL", i |-> n, f |-> c.f, t |-> c.t, sh |-> c.sh, clause |-> cl, out |-> j, pat |-> c.pat, ok |-> c.ok,
+  PrintT(ToJson([tag |-> "P-FAIL", i |-> n, f |-> c.f, t |-> c.t, sh |-> c.sh, clause |-> cl, out |-> j, pat |-> c.pat, ok |-> c.ok, bm |-> c.bm, bk |-> c.bk,
                  mixed |-> (c.pat # "all"), da |-> c.da, dt |-> c.dt, real |-> c.real, ds |-> c.ds, r |-> c.r, hcls |-> c.hcls, cls |-> c.cls,
                  base |-> OutInfo(o.b, j), var |-> OutInfo(o.v, j),
                  cmp |-> IF j \in DOMAIN o.cmp THEN o.cmp[j] ELSE [ex |-> FALSE, tol |-> FALSE, shp |-> FALSE],
